@@ -170,6 +170,134 @@ func (c *c03Child) ackLine(s string) {
 	c.ack.Sync()
 }
 
+// c03Runner executes the calls of a Db.tla-style workload on a real DB.
+type c03Runner struct {
+	db   *tsdb.DB
+	dir  string
+	opts *tsdb.Options
+	conc dbConc
+	init c03Step
+	apps map[string]any
+	rej  map[string]bool
+}
+
+func (r *c03Runner) do(s c03Step, onClosed func()) error {
+	ctx := context.Background()
+	conc, db := r.conc, r.db
+	switch s.A {
+	case "NewAppender":
+		if s.Api == "v2" {
+			r.apps[s.App] = db.AppenderV2(ctx)
+		} else {
+			a := db.Appender(ctx)
+			if s.Rej {
+				a.SetOptions(&storage.AppendOptions{DiscardOutOfOrder: true})
+			}
+			r.apps[s.App] = a
+		}
+		r.rej[s.App] = s.Rej
+	case "Append":
+		ls := c03Labels(s.Ser, r.init.Bigs)
+		tm := conc.tm(s.T)
+		var f float64
+		var h *histogram.Histogram
+		var fh *histogram.FloatHistogram
+		switch {
+		case s.Ty == "f" && s.V == 0:
+			f = math.Float64frombits(value.StaleNaN)
+		case s.Ty == "f":
+			f = conc.Floats[s.V]
+		case s.Ty == "h" && s.V == 0:
+			h = &histogram.Histogram{Sum: math.Float64frombits(value.StaleNaN)}
+		case s.Ty == "h":
+			h = dbHist(s.V)
+		case s.V == 0:
+			fh = &histogram.FloatHistogram{Sum: math.Float64frombits(value.StaleNaN)}
+		default:
+			fh = dbFloatHist(s.V)
+		}
+		var err error
+		switch a := r.apps[s.App].(type) {
+		case storage.AppenderV2:
+			_, err = a.Append(0, ls, 0, tm, f, h, fh, storage.AOptions{RejectOutOfOrder: r.rej[s.App]})
+		case storage.Appender:
+			if s.Ty == "f" {
+				_, err = a.Append(0, ls, tm, f)
+			} else {
+				_, err = a.AppendHistogram(0, ls, tm, h, fh)
+			}
+		default:
+			return fmt.Errorf("append on unknown appender")
+		}
+		if got := dbErrClass(err); got != s.Ret {
+			// the admission rules are C02's subject; a workload that does not run as generated is useless here
+			return fmt.Errorf("Append returned %q, workload expects %q", got, s.Ret)
+		}
+	case "Commit", "Rollback":
+		var err error
+		switch a := r.apps[s.App].(type) {
+		case storage.AppenderV2:
+			if s.A == "Commit" {
+				err = a.Commit()
+			} else {
+				err = a.Rollback()
+			}
+		case storage.Appender:
+			if s.A == "Commit" {
+				err = a.Commit()
+			} else {
+				err = a.Rollback()
+			}
+		}
+		delete(r.apps, s.App)
+		if err != nil {
+			return fmt.Errorf("%s: %w", s.A, err)
+		}
+	case "Delete":
+		var names []string
+		if l, ok := s.S.([]any); ok {
+			for _, x := range l {
+				names = append(names, x.(string))
+			}
+		}
+		sort.Strings(names)
+		m := labels.MustNewMatcher(labels.MatchRegexp, "series", strings.Join(names, "|"))
+		if err := db.Delete(ctx, conc.tm(s.Lo), conc.tm(s.Hi), m); err != nil {
+			return fmt.Errorf("Delete: %w", err)
+		}
+	case "Compact":
+		if err := db.Compact(ctx); err != nil {
+			return fmt.Errorf("Compact: %w", err)
+		}
+	case "CompactOOO":
+		if err := db.CompactOOOHead(ctx); err != nil {
+			return fmt.Errorf("CompactOOOHead: %w", err)
+		}
+	case "CleanTombstones":
+		if err := db.CleanTombstones(); err != nil {
+			return fmt.Errorf("CleanTombstones: %w", err)
+		}
+	case "Mmap":
+		db.ForceHeadMMap()
+	case "Reopen":
+		if err := db.Close(); err != nil {
+			return fmt.Errorf("Close: %w", err)
+		}
+		if onClosed != nil {
+			onClosed()
+		}
+		ndb, err := tsdb.Open(r.dir, nil, nil, r.opts, nil)
+		if err != nil {
+			return fmt.Errorf("Open: %w", err)
+		}
+		ndb.DisableCompactions()
+		r.db = ndb
+	default:
+		return fmt.Errorf("unknown action %s", s.A)
+	}
+	return nil
+}
+
 // TestVerifC03Child is the crash victim: it only runs when re-executed by TestVerifC03Crash.
 func TestVerifC03Child(t *testing.T) {
 	p := os.Getenv("C03_CHILD_SPEC")
@@ -210,127 +338,17 @@ func TestVerifC03Child(t *testing.T) {
 		c.mu.Lock()
 		c.die("opened")
 	}
-	ctx := context.Background()
-	apps := map[string]any{}
-	rej := map[string]bool{}
-	fail := func(i int, msg string) {
-		c.ackLine(fmt.Sprintf("E %d %s", i, strings.ReplaceAll(msg, "\n", " ")))
-		os.Exit(5)
-	}
+	r := &c03Runner{db: db, dir: spec.Dir, opts: opts, conc: conc, init: init, apps: map[string]any{}, rej: map[string]bool{}}
 	for i := 1; i < len(spec.W); i++ {
 		s := spec.W[i]
-		if s.A == "Crash" || s.A == "Recover" || s.A == "End" {
+		if s.A == "Crash" || s.A == "Recover" || s.A == "End" || s.A == "Close" || s.A == "Damage" {
 			break
 		}
 		c.mark(fmt.Sprintf("op:%d:%s", i, s.A))
 		c.ackLine(fmt.Sprintf("B %d %s", i, s.A))
-		switch s.A {
-		case "NewAppender":
-			if s.Api == "v2" {
-				apps[s.App] = db.AppenderV2(ctx)
-			} else {
-				a := db.Appender(ctx)
-				if s.Rej {
-					a.SetOptions(&storage.AppendOptions{DiscardOutOfOrder: true})
-				}
-				apps[s.App] = a
-			}
-			rej[s.App] = s.Rej
-		case "Append":
-			ls := c03Labels(s.Ser, init.Bigs)
-			tm := conc.tm(s.T)
-			var f float64
-			var h *histogram.Histogram
-			var fh *histogram.FloatHistogram
-			switch {
-			case s.Ty == "f" && s.V == 0:
-				f = math.Float64frombits(value.StaleNaN)
-			case s.Ty == "f":
-				f = conc.Floats[s.V]
-			case s.Ty == "h" && s.V == 0:
-				h = &histogram.Histogram{Sum: math.Float64frombits(value.StaleNaN)}
-			case s.Ty == "h":
-				h = dbHist(s.V)
-			case s.V == 0:
-				fh = &histogram.FloatHistogram{Sum: math.Float64frombits(value.StaleNaN)}
-			default:
-				fh = dbFloatHist(s.V)
-			}
-			var err error
-			switch a := apps[s.App].(type) {
-			case storage.AppenderV2:
-				_, err = a.Append(0, ls, 0, tm, f, h, fh, storage.AOptions{RejectOutOfOrder: rej[s.App]})
-			case storage.Appender:
-				if s.Ty == "f" {
-					_, err = a.Append(0, ls, tm, f)
-				} else {
-					_, err = a.AppendHistogram(0, ls, tm, h, fh)
-				}
-			default:
-				fail(i, "append on unknown appender")
-			}
-			if got := dbErrClass(err); got != s.Ret {
-				// the admission rules are C02's subject; a workload that does not run as generated is useless here
-				fail(i, fmt.Sprintf("Append returned %q, workload expects %q", got, s.Ret))
-			}
-		case "Commit", "Rollback":
-			var err error
-			switch a := apps[s.App].(type) {
-			case storage.AppenderV2:
-				if s.A == "Commit" {
-					err = a.Commit()
-				} else {
-					err = a.Rollback()
-				}
-			case storage.Appender:
-				if s.A == "Commit" {
-					err = a.Commit()
-				} else {
-					err = a.Rollback()
-				}
-			}
-			delete(apps, s.App)
-			if err != nil {
-				fail(i, s.A+": "+err.Error())
-			}
-		case "Delete":
-			var names []string
-			if l, ok := s.S.([]any); ok {
-				for _, x := range l {
-					names = append(names, x.(string))
-				}
-			}
-			sort.Strings(names)
-			m := labels.MustNewMatcher(labels.MatchRegexp, "series", strings.Join(names, "|"))
-			if err := db.Delete(ctx, conc.tm(s.Lo), conc.tm(s.Hi), m); err != nil {
-				fail(i, "Delete: "+err.Error())
-			}
-		case "Compact":
-			if err := db.Compact(ctx); err != nil {
-				fail(i, "Compact: "+err.Error())
-			}
-		case "CompactOOO":
-			if err := db.CompactOOOHead(ctx); err != nil {
-				fail(i, "CompactOOOHead: "+err.Error())
-			}
-		case "CleanTombstones":
-			if err := db.CleanTombstones(); err != nil {
-				fail(i, "CleanTombstones: "+err.Error())
-			}
-		case "Mmap":
-			db.ForceHeadMMap()
-		case "Reopen":
-			if err := db.Close(); err != nil {
-				fail(i, "Close: "+err.Error())
-			}
-			c.mark("closed")
-			db, err = tsdb.Open(spec.Dir, nil, nil, opts, nil)
-			if err != nil {
-				fail(i, "Open: "+err.Error())
-			}
-			db.DisableCompactions()
-		default:
-			fail(i, "unknown action "+s.A)
+		if err := r.do(s, func() { c.mark("closed") }); err != nil {
+			c.ackLine(fmt.Sprintf("E %d %s", i, strings.ReplaceAll(err.Error(), "\n", " ")))
+			os.Exit(5)
 		}
 		c.ackLine(fmt.Sprintf("A %d %s", i, s.A))
 	}
@@ -446,19 +464,21 @@ func c03RunChild(spec c03Spec, scratch string, tag string, randomKill time.Durat
 // contents as series -> t -> sample
 type c03Contents map[string]map[int64]dbSample
 
-func c03Query(db dbQueryable) (c03Contents, error) {
-	res := c03Contents{}
-	for _, chunk := range []bool{false, true} {
+// c03Query returns the contents seen by the sample querier and by the chunk querier (where the same timestamp was
+// written in order and out of order with different values either value is legitimate, so the two may differ).
+func c03Query(db dbQueryable) (c03Contents, c03Contents, error) {
+	res := [2]c03Contents{}
+	for qi, chunk := range []bool{false, true} {
 		got, err := dbQuery(db, math.MinInt64, math.MaxInt64, chunk)
 		if err != nil {
-			return nil, err
+			return nil, nil, err
 		}
 		cur := c03Contents{}
 		for name, smp := range got {
 			m := map[int64]dbSample{}
 			for i, x := range smp {
 				if i > 0 && smp[i-1].T >= x.T {
-					return nil, fmt.Errorf("series %s not strictly increasing in time (chunkq=%v): %v", name, chunk, smp)
+					return nil, nil, fmt.Errorf("series %s not strictly increasing in time (chunkq=%v): %v", name, chunk, smp)
 				}
 				m[x.T] = x
 			}
@@ -466,16 +486,31 @@ func c03Query(db dbQueryable) (c03Contents, error) {
 				cur[name] = m
 			}
 		}
-		if !chunk {
-			res = cur
-			continue
-		}
-		// both queriers must agree
-		if a, b := c03Fmt(res), c03Fmt(cur); a != b {
-			return nil, fmt.Errorf("sample querier and chunk querier disagree: %s vs %s", a, b)
-		}
+		res[qi] = cur
 	}
-	return res, nil
+	// both queriers must return the same timestamps
+	if a, b := c03FmtTs(res[0]), c03FmtTs(res[1]); a != b {
+		return nil, nil, fmt.Errorf("sample querier and chunk querier disagree on the timestamps: %s vs %s", c03Fmt(res[0]), c03Fmt(res[1]))
+	}
+	return res[0], res[1], nil
+}
+
+func c03FmtTs(c c03Contents) string {
+	var names []string
+	for n := range c {
+		names = append(names, n)
+	}
+	sort.Strings(names)
+	var sb strings.Builder
+	for _, n := range names {
+		var ts []int64
+		for t := range c[n] {
+			ts = append(ts, t)
+		}
+		sort.Slice(ts, func(i, j int) bool { return ts[i] < ts[j] })
+		fmt.Fprintf(&sb, "%s:%v ", n, ts)
+	}
+	return sb.String()
 }
 
 func c03Fmt(c c03Contents) string {
@@ -659,27 +694,8 @@ func (h *c03LogWatch) has(sub string) bool {
 
 // c03Verdict is called with the directory left by the crashed child(ren).
 func c03Verdict(w []c03Step, seed int64, dir string, run *c03Run, pt c03Point) (sig, msg string, recovered c03Contents) {
-	init := w[0]
-	conc := c03Conc(seed, init)
-	opts := c03Options(conc, init)
+	conc := c03Conc(seed, w[0])
 	what := fmt.Sprintf("crash at %s [%s]; acked ops=%d, in flight=%d %s", pt, conc, run.acked, run.inflight, run.inflA)
-	repairLeft, _ := filepath.Glob(filepath.Join(dir, "wal", "*.repair"))
-	watch := &c03LogWatch{}
-	db, err := tsdb.Open(dir, slog.New(watch), nil, opts, nil)
-	if err != nil {
-		return "open-failed", fmt.Sprintf("%s: reopening the database failed: %v", what, err), nil
-	}
-	db.DisableCompactions()
-	closed := false
-	defer func() {
-		if !closed {
-			db.Close()
-		}
-	}()
-	got, err := c03Query(db)
-	if err != nil {
-		return "query-error", fmt.Sprintf("%s: query after reopen failed: %v", what, err), nil
-	}
 	acked := c03ExpAfter(w, run.acked)
 	lower, uppers := acked, []map[string][]dbExp{acked}
 	if run.inflight > 0 {
@@ -691,10 +707,50 @@ func c03Verdict(w []c03Step, seed int64, dir string, run *c03Run, pt c03Point) (
 			lower = next // a deletion in flight may be applied to some blocks / the head and not to others
 		}
 	}
-	if sig, msg, badSeries, badT := c03BoundsX(conc, got, lower, uppers...); sig != "" {
+	return c03JudgeDir(w, seed, dir, run.acked, what, lower, uppers, nil)
+}
+
+// c03JudgeDir opens dir and checks lower ⊆ contents ⊆ ∪uppers (values included), then that the database accepts new
+// writes and keeps them over a clean restart. onOpenErr, if set, decides about a failing Open (C04 allows some).
+func c03JudgeDir(w []c03Step, seed int64, dir string, ackedOp int, what string, lower map[string][]dbExp, uppers []map[string][]dbExp,
+	onOpenErr func(error) (string, string)) (sig, msg string, recovered c03Contents) {
+	init := w[0]
+	conc := c03Conc(seed, init)
+	opts := c03Options(conc, init)
+	acked := lower
+	repairLeft, _ := filepath.Glob(filepath.Join(dir, "wal", "*.repair"))
+	watch := &c03LogWatch{}
+	db, err := tsdb.Open(dir, slog.New(watch), nil, opts, nil)
+	if err != nil {
+		if onOpenErr != nil {
+			sig, msg := onOpenErr(err)
+			return sig, msg, nil
+		}
+		return "open-failed", fmt.Sprintf("%s: reopening the database failed: %v", what, err), nil
+	}
+	db.DisableCompactions()
+	closed := false
+	defer func() {
+		if !closed {
+			db.Close()
+		}
+	}()
+	got, gotC, err := c03Query(db)
+	if err != nil {
+		return "query-error", fmt.Sprintf("%s: query after reopen failed: %v", what, err), nil
+	}
+	sig, msg, badSeries, badT := c03BoundsX(conc, got, lower, uppers...)
+	if sig == "" {
+		sig, msg, badSeries, badT = c03BoundsX(conc, gotC, lower, uppers...)
+		if sig != "" {
+			msg += " (chunk querier)"
+			got = gotC
+		}
+	}
+	if sig != "" {
 		// narrow signatures of the known deviations (see Crash.tla CKF)
 		switch {
-		case sig == "phantom-sample" && c03WasCommitted(conc, w, run.acked, badSeries, got[badSeries][badT]) && c03NoBlockAbove(db, badT):
+		case sig == "phantom-sample" && c03WasCommitted(conc, w, ackedOp, badSeries, got[badSeries][badT]) && c03NoBlockAbove(db, badT):
 			sig = "deleted-sample-replayed-from-wal"
 			msg += " (the sample was committed and later deleted by an acknowledged Delete; no in-order block reaches above its timestamp any more, so minValidTime does not keep the WAL replay from appending it again)"
 		case sig == "acked-sample-lost" && len(repairLeft) > 0:
@@ -706,7 +762,7 @@ func c03Verdict(w []c03Step, seed int64, dir string, run *c03Run, pt c03Point) (
 			closed = true
 			if db3, err3 := tsdb.Open(dir, nil, nil, opts, nil); err3 == nil {
 				db3.DisableCompactions()
-				got3, err3 := c03Query(db3)
+				got3, _, err3 := c03Query(db3)
 				db3.Close()
 				if err3 == nil {
 					if s3, _ := c03Bounds(conc, got3, lower, uppers...); s3 == "" {
@@ -754,7 +810,7 @@ func c03Verdict(w []c03Step, seed int64, dir string, run *c03Run, pt c03Point) (
 		return "second-open-failed", fmt.Sprintf("%s: second reopen failed: %v", what, err), got
 	}
 	db2.DisableCompactions()
-	got2, err := c03Query(db2)
+	got2, got2C, err := c03Query(db2)
 	db2.Close()
 	if err != nil {
 		return "query-error", fmt.Sprintf("%s: query after second reopen failed: %v", what, err), got
@@ -772,8 +828,28 @@ func c03Verdict(w []c03Step, seed int64, dir string, run *c03Run, pt c03Point) (
 		}
 		want[n][newT] = dbSample{T: newT, Ty: "f", F: 42.5}
 	}
-	if a, b := c03Fmt(got2), c03Fmt(want); a != b {
-		return "post-recovery-contents-changed", fmt.Sprintf("%s: after appending (t=%d) to the recovered database and a clean restart the contents are\n  %s\nexpected\n  %s", what, newT, a, b), got
+	// same timestamps as recovered + the new samples; values within what was written (a timestamp written twice with
+	// different values may legitimately show either)
+	if a, b := c03FmtTs(got2), c03FmtTs(want); a != b {
+		return "post-recovery-contents-changed", fmt.Sprintf("%s: after appending (t=%d) to the recovered database and a clean restart the contents are\n  %s\nexpected\n  %s", what, newT, c03Fmt(got2), c03Fmt(want)), got
+	}
+	for _, g2 := range []c03Contents{got2, got2C} {
+		for n, m := range g2 {
+			for t, x := range m {
+				if t == newT {
+					if x.Ty != "f" || x.F != 42.5 {
+						return "post-recovery-value-altered", fmt.Sprintf("%s: the sample appended after recovery reads back as %v", what, x), got
+					}
+					delete(m, t)
+				}
+			}
+			if len(m) == 0 {
+				delete(g2, n)
+			}
+		}
+		if s2, m2 := c03Bounds(conc, g2, nil, uppers...); s2 != "" {
+			return "post-recovery-" + s2, fmt.Sprintf("%s: after a clean restart of the recovered database: %s", what, m2), got
+		}
 	}
 	return "", "", got
 }
